@@ -173,6 +173,39 @@ theorem suggestion_is_nearest (dist : String → Nat) (cands : List String) (s :
   · have : dist s < 3 := by simpa using hs.2
     omega
 
+theorem pickNearest_some_ne_none (dist : String → Nat) : ∀ (l : List String) (b : String), pickNearest dist (some b) l ≠ none
+  | [], b => by simp [pickNearest]
+  | c :: cs, b => by
+    simp only [pickNearest]
+    split
+    · exact pickNearest_some_ne_none dist cs c
+    · exact pickNearest_some_ne_none dist cs b
+
+/-- nothing is suggested exactly when every candidate is at distance 3 or more -/
+theorem no_suggestion_iff (dist : String → Nat) (cands : List String) :
+    suggest dist cands = none ↔ ∀ c ∈ cands, 3 ≤ dist c := by
+  unfold suggest
+  constructor
+  · intro h c hc
+    cases hf : cands.filter (fun c => decide (dist c < 3)) with
+    | nil =>
+      have := List.filter_eq_nil_iff.mp hf c hc
+      simp only [decide_eq_true_eq] at this
+      omega
+    | cons x xs =>
+      rw [hf] at h
+      simp only [pickNearest] at h
+      exact absurd h (pickNearest_some_ne_none dist xs x)
+  · intro h
+    have hf : cands.filter (fun c => decide (dist c < 3)) = [] := by
+      apply List.filter_eq_nil_iff.mpr
+      intro c hc
+      have := h c hc
+      simp only [decide_eq_true_eq]
+      omega
+    rw [hf]; rfl
+
+
 /-- **with candidates taken from a hash table the suggestion depends on the iteration order** whenever two candidates
 are equally near (the seeded change C20-m7 chained the constants' `HashMap` keys) -/
 theorem suggestion_depends_on_candidate_order :
